@@ -173,6 +173,8 @@ type Engine struct {
 	cellName  map[*Value]string
 	curSite   string
 	ticks     int // remaining ticker firings granted by verifrt.Ticks
+	timers    []*ctxState // contexts with a deadline
+	tickEpoch int
 	numStr    map[string]*Term
 	randDraws [][]*Term
 	symIPs    map[string]Value
@@ -312,6 +314,8 @@ func (e *Engine) runPath(fn *ssa.Function) (cont bool) {
 	e.symIPs = map[string]Value{}
 	e.th = nil
 	e.ticks = 0
+	e.timers = nil
+	e.tickEpoch = 0
 	e.clock = e.st.Const(64, 1<<60)
 	if e.solver != nil {
 		e.solver.PopTo(0)
